@@ -66,7 +66,7 @@ IsVecText(s) == LET f == SplitOn(s, 32) IN Len(f) = 3 /\ \A j \in 1..3 : IsIntTe
 \* Vec.from_str / Angle.from_str: anything that is not three numbers reads as zero
 ParseVec(s) == IF IsVecText(s) THEN ParseInts(s) ELSE <<0, 0, 0>>
 \* degrees (multiples of 90 in this domain) -> quarter turns
-QT(deg) == Q((deg \div 90) % 4 + 4)
+QT(deg) == Q(((deg \div 90) % 4) + 4)
 ParseAng(s) == LET v == ParseVec(s) IN <<QT(v[1]), QT(v[2]), QT(v[3])>>
 ParseDeg(s) == IF IsIntText(s) THEN QT(IntOf(s)) ELSE 0
 
@@ -200,17 +200,15 @@ OrientTags == {"angles", "npitch", "pitch", "yaw"}
 
 (* --- the abstract machine of collapse_all (typed level, used by Instances) ----- *)
 \* An abstract entity is either a marker or a nested instance:
-\*   [kind |-> "mark", name, pos, ang]
-\*   [kind |-> "inst", name, pos, ang, file, style, fixv (value of its one $variable), rc]
+\*   [kind |-> "mark" or "inst", name, pos, ang, file, style, fixv (value of its one $variable), rc]
+\* (a marker carries file 0, style 2, no fixup value and count 0, so that all have one shape)
 InstOfEnt(e) == [name |-> e.name, pos |-> e.pos, ang |-> e.ang, style |-> e.style,
                  fix |-> <<>>, rc |-> e.rc]
 PlaceAbs(I, e) ==
-    IF e.kind = "mark"
-    THEN [kind |-> "mark", name |-> FixupName(I.style, I.name, e.name), pos |-> PlacePos(I, e.pos),
-          ang |-> ToAngle(PlaceRot(I, e.ang))]
-    ELSE [kind |-> "inst", name |-> FixupName(I.style, I.name, e.name), pos |-> PlacePos(I, e.pos),
-          ang |-> ToAngle(PlaceRot(I, e.ang)), file |-> e.file, style |-> e.style,
-          fixv |-> RenamedFixup(I.style, I.name, e.fixv), rc |-> I.rc + 1]
+    LET moved == [e EXCEPT !.name = FixupName(I.style, I.name, @), !.pos = PlacePos(I, @),
+                           !.ang = ToAngle(PlaceRot(I, @))]
+    IN IF e.kind = "mark" THEN moved
+       ELSE [moved EXCEPT !.fixv = RenamedFixup(I.style, I.name, @), !.rc = I.rc + 1]
 PlaceAll(I, ents) == [j \in 1..Len(ents) |-> PlaceAbs(I, ents[j])]
 IsInst(e) == e.kind = "inst"
 IsMark(e) == e.kind = "mark"
